@@ -46,9 +46,10 @@ def run(rep):
         v = S.eval(nn)
         rep.fn(nn)
         ne = S.alg.bdd.NOT(S.alg.eq(S.eng.proj_field(v, 0), ("const", CLOSE_CONST))) if v is not None else 0
-        generic = [l for l in S.eng.loops.values() if l.kind == "generic"]
-        if v is not None and under_assumptions(S, ne) == 1 and len(generic) == 1 and not generic[0].normal:
-            rep.ok("nonce-invariant", "Nonce::new", sample="the sampling loop has one way out, guarded by n != CLOSE_SCALAR on the returned n: holds for every randomness stream")
+        # `assumed` facts exist only for sole-exit sampling constructs (loop with one way out, stream filter/find): the value
+        # returned is a draw for which the guard held, whatever the randomness stream
+        if v is not None and under_assumptions(S, ne) == 1:
+            rep.ok("nonce-invariant", "Nonce::new", sample="the only way out of the sampling construct is guarded by n != CLOSE_SCALAR on the returned n: holds for every randomness stream")
         else:
             rep.fail("nonce-invariant", "Nonce::new", "Nonce::new can return a nonce equal to the close tag for some randomness stream: %s" % (S.show(v) if v else None), site=nn.loc())
     rec = prog.adts.get(NONCE)
